@@ -9,10 +9,13 @@ claimed = {
  "C05": ("fault_enumeration", "7/C05", "value lengths across every write-path threshold in both I/O modes, then one seeded burst of <= 32 bits flipped in a stored record (data / meta / record header / blob header) under the open storage or between sessions; altered bytes must never be returned, untouched blobs never quarantined"),
  "C06": ("fault_enumeration", "7/C06", "three-session simulated runs cut by a process kill (partial write lengths) or a power loss (un-synced suffix cut / torn per file, rebuilt from the sync points of the I/O tap); random crash points plus a sweep over every mutating I/O event of sampled histories; recovery, recovery tool on rejected blobs, writes after recovery and further restarts checked against the model"),
  "C07": ("exploration", "7/C07", "I/O tap monitors on every simulated run: append-only offsets, no truncate/re-create of blobs, shadow-copy equality at session boundaries, no id reuse, no writes attributed to queries"),
+ "C08": ("exploration", "7/C08", "N simulated client tasks plus a maintenance client and the real background worker under a seeded scheduler (latencies, stalls, yield points before every lock acquisition, channel capacity knob incl. a burst profile and 100..1200-client runs); linearizability condition per completed read over the recorded history, exactly-once records, contiguous layout, deadlock watchdog (idle and busy-wait), model equality at quiescence and after restart"),
  "C10": ("exploration", "7/C10", "same simulator with swarm bloom/group configurations; no-false-negative oracle after every step and on-file == in-memory probe across offload at quiescent points"),
  "C11": ("fault_enumeration", "7/C11", "injected ENOSPC/EIO/short writes at the n-th create/open/write/sync on blob or index files (random, and a sweep over every mutating I/O event of sampled histories); acknowledged records stay readable in session, after 60 simulated seconds and after restart; errors only while a fault fires; rotation probe afterwards"),
  "C12": ("exploration", "7/C12", "ordered I/O tap (write/sync events with lengths) checked online for header-sync-before-record, blob-sync-before-index-complete, clean-after-fsync/close and the dirty bound at quiescent points"),
+ "C13": ("exploration", "7/C13", "seeded sequences of public calls in every active-blob state (all background requests whether or not they apply, force updates, wall-clock jumps), then bounded-liveness probes in simulated time: rotation within the probe, up-to-date index files after the maximal deferral, close() within 60 simulated seconds, no task panic"),
  "C14": ("fault_enumeration", "7/C14", "operation futures polled k times and dropped (random, and a sweep over operation x k), detached simulated jobs racing with the next operations; all-or-nothing for the cancelled operation, every other acknowledged record readable, later operations succeed, no blob rejected at the restart"),
+ "C16": ("fault_enumeration", "7/C16", "the real offline tools run on blobs/indexes produced by simulated histories, undamaged and with stored-byte faults at rest (truncation lengths, <= 32-bit bursts per position class); validators accept/reject, recovery output validates and a storage opened on it serves every contained record with its original bytes, migration preserves records, read_index equals the trace-derived headers"),
  "C15": ("exploration", "7/C15", "same simulator; every counter compared at quiescent points with the physical record list derived from the tapped writes and the directory listing"),
 }
 notes = {
@@ -25,6 +28,9 @@ notes = {
  "C11": "faults are decided by the simulator at the tapped std::fs calls; directory operations during init are not faulted",
  "C14": "the dropped future's blocking closures are simulated jobs that still run (same contract as spawn_blocking); half of the runs let them finish before the next operation, half let the next operation race with them",
  "C07": "trusted: the tap sees every write pearl issues through crate::io::File; directory operations (rename into corrupted/, index removal) are observed by snapshots at session boundaries",
+ "C08": "interleaving granularity = await points + yield points (incl. before every storage-level and blob-level lock acquisition); two blocking closures never overlap inside their bodies; the async-lock mutex reads the real clock for its fairness mode (only affects which waiter is woken first); a busy-wait detector replaces idle-based time advance when tasks spin",
+ "C13": "bounds are in simulated time and apply only without disk stalls; the wall clock is simulated (jumps of +-1 s and +-1 h)",
+ "C16": "weakest fit for the technique: no scheduling component; the tools run outside the simulator on a plain thread, the storage-on-output oracle in a small runtime of its own",
  "C10": "as C01; filters are only exercised through the storage (the bare Bloom/RangeFilter API is a pure function)",
  "C12": "trusted: the tap's notion of synced length (content length at the last successful sync_all of that file)",
  "C15": "as C01; accounting is compared at quiescent points only (a blob under creation by the worker exists on disk before it is attached)",
@@ -33,7 +39,7 @@ not_applicable = [
  {"property_id": "C09", "reason": "pure function of a header multiset (build index file, compare lookups with the in-memory index): no schedule, clock, fault or interleaving to simulate; deciding it is input enumeration, a different technique. Storage-visible consequences are exercised by C01/C03/C04 whenever a blob is dumped (DESIGN.md section 8)"},
  {"property_id": "C17", "reason": "differential check against files produced by the pinned release: needs a committed golden corpus and has no schedule, fault or time in it; golden-file replay is a different technique (DESIGN.md section 8)"},
 ]
-pending = ["C08","C13","C16"]
+pending = []
 hooks = subprocess.run(["git","-C","/repo","log","--format=%H %s"],capture_output=True,text=True).stdout.strip().split("\n")
 hook_commits=[l.split()[0] for l in hooks if "verif hook" in l]
 checks=[]
